@@ -7,7 +7,7 @@ RACE = True
 MODEL_FN = 'Model/Pipe.v:pipe_step (whole-datagram steps), message count of the sequential run'
 RULE = ('workloads: a sequential prologue announcing templates (no redefinitions) and sampling rates for 4 exporter scopes '
         '(v9 and IPFIX, several domains), then 20..60 data-only v9/IPFIX messages, NetFlow v5 and sFlow datagrams processed by '
-        '2, 3, 8, 16 or 32 goroutines calling DecodeFlow on one shared auto pipe / producer / format / recording transport '
+        '2, 3, 8, 16 or 32 goroutines calling DecodeFlow on one shared auto pipe assembled as cmd/goflow2 assembles it (Prometheus template system, Prometheus and panic wrappers) / producer / format / recording transport '
         'with random yields, harness built with -race, once with an in-memory recording transport (bin format) and once with the JSON format and the real file transport; compared with a sequential run of the same datagrams on a fresh pipe: '
         'same number of Send calls as the model\'s sequential run, same multiset of payloads, and the messages of each datagram '
         '(recognised by its unique receive time) in the same order; the race detector must stay silent. '
